@@ -285,4 +285,7 @@ def jobs(tier):
         J.append(Job(f'experimental.NUTS.step:loop_body:{"finite" if nf is None else nf}', lambda c, nf=nf: step_body(c, nf), 'Pinf', [f'{X}.step'], maxpaths=4096, timeout=900))
     J.append(Job('legacy.NUTS._sample:doubling_loop_body', legacy_step_body, 'Pinf', [f'{L}._sample'], maxpaths=4096, timeout=900))
     J.append(Job('experimental.NUTS.step:prologue', step_prologue, 'Pinf', [f'{X}.step', f'{X}._Kfun']))
+    from contracts import C02 as _c02
+    for iface, tag in (('exp', 'experimental'), ('leg', 'legacy')):
+        J.append(Job(f'{tag}.NUTS:log_density_offset_invariance', lambda c, i=iface: _c02.offset_invariance(c, i, 'NUTS'), 'B', [f'{X}.step' if iface == 'exp' else f'{L}._sample'], nnum=2))
     return J
